@@ -26,13 +26,36 @@ type caseC04 struct {
 
 func idSpec(steps ...pt.Step) pt.Spec { return pt.Spec{Base: pt.Base{Kind: "id"}, Steps: steps} }
 
+// twinAbscissa returns (hex) an abscissa x' != x of the curve whose 32-byte encoding is a checksum twin of x's; "" if there is none.
+func twinAbscissa(x *big.Int, kind, skip int) string {
+	xb := ref.Bytes32(x)
+	tw := gen.CRCTwins(xb, 0, 32, 96)
+	if kind == 1 {
+		tw = gen.AdditiveTwins(xb, 30)
+	}
+	for _, b := range tw {
+		v := new(big.Int).SetBytes(b)
+		if _, _, ok := ref.LiftX(v); ok && v.Cmp(ref.P) < 0 && v.Cmp(x) != 0 {
+			if skip--; skip < 0 {
+				return hex.EncodeToString(b)
+			}
+		}
+	}
+	return ""
+}
+
 var c04 = gen.Register(&gen.Check[caseC04]{
 	Name: "C04/encodings",
 	Gen: func(t *rapid.T) caseC04 {
 		p := pt.SpecGen(3, true).Draw(t, "p")
 		c := caseC04{P: p}
 		c.Steps2 = pt.WithSteps(t, p.Base, 2, false).Steps
-		if m := p.Base.Point(); !m.Inf && gen.Chance(t, "prev", 1, 4) {
+		if m := p.Base.Point(); !m.Inf && gen.Chance(t, "prevTwin", 1, 6) {
+			// a CHECKSUM TWIN of the abscissa (equal under the CRC family and the xor folds, or under the additive checksums:
+			// gen/twins.go) that is an abscissa of the curve as well: a table of roots keyed by a checksum of the encoding
+			// hands the second of two twins the ordinate of the first
+			c.PrevX = twinAbscissa(m.X, gen.Pick(t, "twinKind", 2), gen.Pick(t, "twinSkip", 8))
+		} else if !m.Inf && gen.Chance(t, "prev", 1, 4) {
 			l := gen.ToLimbs(m.X)
 			l[gen.Pick(t, "word", 4)] = gen.U64(t, "w")
 			x := gen.FromLimbs(l)
@@ -123,6 +146,8 @@ var c04 = gen.Register(&gen.Check[caseC04]{
 		if c.PrevX != "" {
 			o.Class("after-look-alike")
 			px := gen.HexBytes(c.PrevX)
+			o.ClassIf(!m.Inf && gen.TwinsAgree(ref.Bytes32(m.X), px, "crc", 3) == "", "after-checksum-twin:crc")
+			o.ClassIf(!m.Inf && gen.TwinsAgree(ref.Bytes32(m.X), px, "additive", 0) == "", "after-checksum-twin:additive")
 			_ = secp256k1.NewElement().Decode(append([]byte{2}, px...))
 			_ = secp256k1.NewElement().Decode(append([]byte{3}, px...))
 		}
